@@ -167,7 +167,7 @@ def handle (args : List String) : String :=
       return bitsOfF (wtypeGME (16 : Float) 2 0.75 4 a b c)
   | ["eprobe", kind, dim] => Id.run do
       let some dim := dim.toNat? | return "bad-op"
-      if dim > 24 then return "bad-op"
+      if dim > 48 then return "bad-op"
       if kind = "eq8" then
         if dim < 2 then return "error:assert"
         let ent := (List.range (2 * dim)).flatMap fun m => flatEntries dim (eprobe8 dim m)
